@@ -16,5 +16,5 @@ for p in $props; do
   if [ $rc -ne 0 ]; then echo "$out" | grep -E "VIOLATION|INCONCLUSIVE|^   " | head -3 | cut -c1-240; fi
 done
 git -C /repo worktree remove --force $wt
-rm -rf /verif/.cache/replay-target-* /verif/.cache/replay-crate-* /verif/.cache/mir-target-????????
+true
 echo "MUTANT $id =>$res"
